@@ -55,7 +55,26 @@ func mapRangeLoops(fn *ssa.Function) []rangeLoop {
 			}
 			for _, ref := range *r.Referrers() {
 				if nx, ok := ref.(*ssa.Next); ok {
-					out = append(out, rangeLoop{Range: r, Next: nx, Blocks: naturalLoop(nx.Block())})
+					blocks := naturalLoop(nx.Block())
+					// the body is what the "there is a next element" edge dominates: a body that always leaves the loop (`for _, p :=
+					// range m { first = p; break }`) has no back edge and is not part of the natural loop, yet it runs for whichever
+					// element the iteration happens to start with
+					hb := nx.Block()
+					if _, isIf := hb.Instrs[len(hb.Instrs)-1].(*ssa.If); isIf && len(hb.Succs) == 2 {
+						body := hb.Succs[0]
+						if len(body.Preds) == 1 {
+							if blocks == nil {
+								blocks = map[*ssa.BasicBlock]bool{}
+							}
+							blocks[hb] = true
+							for _, b2 := range fn.Blocks {
+								if body.Dominates(b2) {
+									blocks[b2] = true
+								}
+							}
+						}
+					}
+					out = append(out, rangeLoop{Range: r, Next: nx, Blocks: blocks})
 				}
 			}
 		}
